@@ -99,8 +99,10 @@ Lemma shf_flush_unfold k ft now :
       Ok (shf_ph6 (shf_k5 k4 sb' a) a (shf_cw k3) (shf_resent k4), f_next a, flush_buffer (f_st a))
     end end end
   end.
-Proof. (* kernel conversion (checked at Qed); the tactic-level unifier does not terminate in reasonable time *)
-  exact_no_check (eq_refl (flush k ft now)). Qed.
+Proof.
+  unfold flush, shf_ph1, shf_ph2, shf_ph3, shf_ph4, shf_ph5, shf_ph6, shf_k4, shf_k5, shf_cw, shf_resent, shf_hdr, shf_h0.
+  cbv zeta. reflexivity.
+Qed.
 
 (* ------------------------------------------------------------------ *)
 (* headers                                                             *)
@@ -344,7 +346,7 @@ Lemma shf_flush_seg_unfold k h resent newsegs now s a :
   if s_acked s =? 1 then Ok (s, a)
   else let '(ns, rto, rts, fa, a1) := shf_decide k resent newsegs now s a in
        shf_emit k h now s ns rto rts fa a1.
-Proof. exact_no_check (eq_refl (flush_seg k h resent newsegs now s a)). Qed.
+Proof. unfold flush_seg, shf_decide, shf_emit. cbv zeta. reflexivity. Qed.
 
 Lemma shf_decide_sim p k1 k2 resent newsegs now s1 s2 a1 a2 ns rto rts fa a1' :
   shf_cfg k1 k2 -> R_sq s1 s2 -> (s_xmit s1 <> 0 -> s_resendts s2 = sh (co p) (s_resendts s1)) ->
@@ -597,5 +599,5 @@ Proof.
   rewrite <- (shf_cw_eq _ _ _ Hc), <- (shf_resent_eq _ _ (shf_cfg_k4 p kc1 kc2 sq1 sq2 sb1 sb2 nxt1 nxt2 Hc)), <- A5.
   intros E; inversion E; subst. do 2 eexists. split; [reflexivity|].
   split; [|apply shf_flush_buffer; exact Hsta].
-  apply shf_ph6_sim; [|exact A1|exact A2]. apply shf_k5_sim; assumption.
+  apply shf_ph6_sim; [|exact A1|exact A2]. apply shf_k5_sim; try assumption; reflexivity.
 Qed.
